@@ -476,7 +476,7 @@ func TestVerifMatch(t *testing.T) {
 	keys := vcorpusRecord(o, "full08", c)
 	nE, nD, nS, nM := 6, 10, 5, 24
 	if vthorough() {
-		nE, nD, nS, nM = 60, 150, 42, 600
+		nE, nD, nS, nM = 150, 400, 42, 1500
 	}
 	n := 0
 	for _, in := range vgenInputs(r, nE, nD, nS, nM) {
